@@ -84,6 +84,8 @@ class Fn:
             if e[1][-1] == "None":
                 return "Option<?>"
             return None
+        if k == "field" and e[2] == "await":
+            return self.ty(e[1], env)
         if k == "field":
             t = self.ty(e[1], env)
             if t and (t, e[2]) in self.fields:
@@ -284,6 +286,8 @@ class Fn:
     # ------------------------------------------------------------ pure expressions
     def ex(self, e, env):
         k = e[0]
+        if k == "str" and self.spec.get("str_literals"):
+            return "[%s]" % "; ".join(str(b) for b in e[1].strip('"').encode())
         if k == "num":
             return str(e[1])
         if k == "char":
@@ -918,8 +922,13 @@ class Fn:
             # let _ = f(..);  /  f(..);  where f updates the state
             e0 = s[1] if k == "expr" else (s[3] if k == "let" and s[1][0] == "pwild" else None)
             if e0 is not None:
-                while e0[0] == "try":
+                while e0[0] == "try" or (e0[0] == "field" and e0[2] == "await"):
                     e0 = e0[1]
+                if e0[0] == "mcall" and e0[1][0] == "path" and len(e0[1][1]) == 1 and (e0[1][1][0] + "." + e0[2]) in self.spec.get("try_out_calls", {}):
+                    var, tmpl, errv = self.spec["try_out_calls"][e0[1][1][0] + "." + e0[2]]
+                    o = self.fresh("o")
+                    return "match %s with Some %s => let %s := %s in %s | None => %s end" % (
+                        self.apply(tmpl, [self.ex(a, env) for a in e0[3]]), o, self.var(var), o, after(env), ctx.ret(errv))
                 if e0[0] == "call" and e0[1][0] == "path" and "::".join(e0[1][1]) in self.spec.get("state_updates", {}):
                     if "::".join(e0[1][1]) in self.spec.get("only_under_lock", ()) and not self.in_closure:
                         raise Unsupported("%s is called outside the closure passed to with_commit_lock" % "::".join(e0[1][1]))
@@ -2054,6 +2063,50 @@ def functions():
         return "Definition g_client_list (reply : sreply) : list ceff * option (list (list Z * D)) :=\n  %s." % text
     out.append(("client_list", "src/bin/copia/hub.rs HubClient::list", None, t_client_list))
 
+    def t_sync_files():
+        src = read("src/async_sync.rs")
+        params, ret, body = R.find_fn(src, "sync_files", "AsyncCopiaSync")
+        if [n for n, _ in params] != ["self", "source_path", "dest_path"]:
+            raise Unsupported("signature of sync_files is %s" % params)
+        # `use` items carry no behaviour
+        def dropuse(n):
+            if isinstance(n, tuple):
+                if n and n[0] == "block":
+                    ss = []
+                    it = iter(list(n[1]))
+                    for st in it:
+                        if st[0] == "expr" and st[1] == ("path", ["use"]):
+                            next(it, None)
+                            continue
+                        ss.append(dropuse(st))
+                    return ("block", ss, dropuse(n[2]) if n[2] is not None else None)
+                return tuple(dropuse(x) for x in n)
+            if isinstance(n, list):
+                return [dropuse(x) for x in n]
+            return n
+        body2 = dropuse(body)
+        spec = dict(try_transparent=True, state="fs", str_literals=True,
+                    let_conv={"source_path": "SRCP", "dest_path": "DSTP"},
+                    fields={("AsyncCopiaSync", "config"): ("{0}", "SyncConfig"), ("SyncConfig", "block_size"): ("bsz (* {0} *)", "usize")},
+                    calls={"tokio::fs::try_exists": ("(Some (exists_file fs {0}))", "Option<bool>"),
+                           "tokio::fs::read": ("read_file source fs {0}", "Vec<u8>"),
+                           "crate::Signature::generate": ("gen_signature digest H bs {0} (* {1} *)", "Signature"), "Cursor::new": ("{0}", "Vec<u8>"),
+                           "crate::CopiaSync::with_block_size": ("tt (* {0} *)", "CopiaSync"),
+                           ".delta": ("compute_delta digest H deq bs {2} {1} (* {0} *)", "Delta"),
+                           ".bytes_matched": ("matched_of {0}", "u64"), ".bytes_literal": ("lits (d_ops _ {0})", "u64"),
+                           "Vec::with_capacity": ("(@nil Z) (* {0} *)", "Vec<u8>"), ".with_extension": ("TMPP (* {0} {1} *)", "PathBuf")},
+                    state_updates={"tokio::fs::write": "write_file fs {0} {1}", "tokio::fs::rename": "rename_file fs {0} {1}"},
+                    try_out_calls={"sync.patch": ("output", "patch_out checked verify {0} {1} (* {2} *)", "(fs, None)")},
+                    eq={"Vec<u8>": "(list_eqb Z.eqb)"},
+                    structs={"SyncResult": ("mk_result", ["bytes_matched", "bytes_literal", "source_size", "basis_size"], ["u64", "u64", "u64", "u64"])},
+                    rename={"self": "tt"},
+                    ok=lambda s_: "(fs, Some %s)" % paren(s_))
+        fn = Fn(dict(spec, self_type="AsyncCopiaSync"))
+        env = {"self": "AsyncCopiaSync", "source_path": "SrcPath", "dest_path": "DstPath"}
+        text = fn.block(body2, env, Ctx(val=(lambda x: x), ret=(lambda x: x), fall=None))
+        return "Definition g_sync_files (checked verify : bool) (source : list Z) (fs : fstate) : fstate * option sresult :=\n  %s." % text
+    out.append(("sync_files", "src/async_sync.rs AsyncCopiaSync::sync_files", None, t_sync_files))
+
     def t_run_remote():
         src = read("src/bin/copia/incremental.rs")
         params, ret, body = R.find_fn(src, "run_remote", None)
@@ -2157,6 +2210,7 @@ GROUPS = {
     "Protocol": ("Model.Checksum Model.Delta Model.Protocol", False, ["from_u8", "hvalidate"]),
     "DeltaV": ("Model.Checksum Model.Delta", True, ["delta_validate"]),
     "Scan": ("Model.Checksum Model.Delta", "scan", ["delta", "async_delta"]),
+    "SyncFiles": ("Model.Checksum Model.Delta", "syncfiles", ["sync_files"]),
     "Patch": ("Model.Checksum Model.Delta Gen.DeltaVGen", "patch", ["patch", "async_patch"]),
     "SafeJoin": ("Model.SafeJoin", False, ["safe_join"]),
 }
@@ -2294,6 +2348,20 @@ def main():
                     "From stdpp Require Import gmap.\nFrom Copia Require Import Model.LoopLib Model.Hub Model.SafeJoin Model.HubSeq.\n\n"
                     "Section WithDigest.\nContext {D : Type}.\nNotation sreq := (@HubSeq.sreq D).\nNotation sreply := (@HubSeq.sreply D).\n"
                     "Inductive ceff := CSend (r : sreq) | CStream (c : list Z) | CFlush | CRecv.\n\n" + "\n".join(texts) + "End WithDigest.\n")
+        elif digest == "syncfiles":
+            body += ("\nSection WithDigest.\nVariable digest : Type.\nVariable H : list Z -> digest.\nVariable deq : forall x y : digest, {x = y} + {x <> y}.\nVariable bs : nat.\n"
+                     "Definition bsz : Z := Z.of_nat bs.\n"
+                     "(* the three files sync_files touches, and their contents: the source never changes *)\n"
+                     "Inductive fpath := SRCP | DSTP | TMPP.\n"
+                     "Record fstate := { f_dest : option (list Z); f_tmp : option (list Z) }.\n"
+                     "Definition exists_file (fs : fstate) (p : fpath) : bool := match p with SRCP => true | DSTP => match f_dest fs with Some _ => true | None => false end | TMPP => match f_tmp fs with Some _ => true | None => false end end.\n"
+                     "Definition read_file (source : list Z) (fs : fstate) (p : fpath) : list Z :=\n  match p with SRCP => source | DSTP => match f_dest fs with Some b => b | None => [] end | TMPP => match f_tmp fs with Some b => b | None => [] end end.\n"
+                     "Definition write_file (fs : fstate) (p : fpath) (c : list Z) : fstate :=\n  match p with DSTP => {| f_dest := Some c; f_tmp := f_tmp fs |} | TMPP => {| f_dest := f_dest fs; f_tmp := Some c |} | SRCP => fs end.\n"
+                     "Definition rename_file (fs : fstate) (from to : fpath) : fstate :=\n  match from, to with TMPP, DSTP => {| f_dest := f_tmp fs; f_tmp := None |} | _, _ => fs end.\n"
+                     "Record sresult := mk_result { bytes_matched : Z; bytes_literal : Z; source_size : Z; basis_size : Z }.\n"
+                     "Definition matched_of (d : Delta.delta digest) : Z := out_len (d_ops _ d) - lits (d_ops _ d).\n"
+                     "Definition patch_out (checked verify : bool) (basis : list Z) (d : Delta.delta digest) : option (list Z) :=\n  match Delta.patch digest H deq checked verify basis d with POk o => Some o | _ => None end.\n\n"
+                     + "\n".join(texts) + "End WithDigest.\n")
         elif digest == "archivesys":
             body = (HEADER % (group, imports)) + "\nSection WithFs.\nVariable path_exists : apath -> bool.   (* path.exists() *)\n\n" + "\n".join(texts) + "End WithFs.\n"
         elif digest == "onewaysys":
